@@ -57,4 +57,26 @@ CLAIMED = {
         note='Trusted: Coq kernel, py2coq, harness. Arc boxes are translated and run in correspondence but their correctness is '
              'validated by sampling, not proved. Known finding: Arc3D partial-arc boxes.',
         technique=T_Q),
+    'C04': dict(
+        text='The five 16-entry fill-selection tables and the index/fill decoding of __select are regenerated from boolean.py and proved '
+             '(exhaustively over all 16 fill states: a complete proof on this finite domain) to be exactly the truth tables of union, '
+             'intersection, difference, reverse difference and xor, with the inversion flags; a segment is proved kept iff the result '
+             'indicator changes across it. The cell-set specification (CellSpec.v) is proved to obey the set and area laws '
+             '(inclusion-exclusion, split partitions, n-ary folds). The Martinez sweep and the chainer are NOT modelled: their output is '
+             'compared with the Coq specification (vm_compute) on lattice polygons exactly, and with exact point membership and area '
+             'identities on general-position polygons.',
+        note='Partial: the theorem covers the decision tables and the specification; the sweep is validated against the specification on '
+             'generated inputs only. Trusted: Coq kernel, tools/tables.py, harness.',
+        technique='machine-checked Coq proof of the selection tables and of the cell-set specification; vm_compute comparison of the '
+                  'unmodelled sweep against the specification; exact-rational search'),
+    'C03': dict(
+        text='A generic Coq theorem shows by induction over histories of any length that a memo slot whose steps are sound always observes '
+             'the fresh value. The transfer tables (which slot each copy/transform carries over and how) are regenerated from the 8 source '
+             'files on every run and checked exhaustively (vm_compute) against a law table; for Polygon2D\'s signed area the laws are proved '
+             'from the shoelace theorems, including that the repaired reverse defect is unsound. Every derived property after exhaustive '
+             'short and sampled long histories is compared with a fresh object.',
+        note='Trusted: Coq kernel, tools/xfer.py (cross-checked dynamically against real objects), harness. Laws other than the '
+             'Polygon2D area/orientation ones are a hand-written specification validated by the history runner. Known finding: '
+             'Face3D.mesh_grid vertex normals of unused vertices.',
+        technique=T_Q),
 }
